@@ -23,6 +23,7 @@ func runC12(run *Run, replay string) {
 	ctx := context.Background()
 	objectHoverOracle(run, bases*3)
 	literalValueHoverOracle(run, bases*4)
+	referenceHoverOracle(run, bases)
 	for bi := 0; bi < bases; bi++ {
 		r := rand.New(rand.NewSource(subSeed(run.Res.Seed, bi)))
 		opts := ScenarioOpts{Histories: hist, Inject: bi%3 == 1, Gen: GenOpts{Degenerate: bi%7 == 6, DynFocus: bi%8 == 3}}
